@@ -282,7 +282,7 @@ func (route *baseRoute) delDestination(index int, extendConfig baseCfgExtender) 
 		return fmt.Errorf("Invalid index %d", index)
 	}
 	conf.Dests()[index].Shutdown()
-	newDests := append(conf.Dests()[:index], conf.Dests()[index+1:]...)
+	newDests := append(conf.Dests()[:index:index], conf.Dests()[index+1:]...)
 	newConf := extendConfig(baseConfig{*conf.Matcher(), newDests})
 	route.config.Store(newConf)
 	return nil
